@@ -62,7 +62,7 @@ class Scenario:
 
 
 def gen_scenario(rng, n, epochs=2, ops_per_rank=6, sizes=(0, 8, 100, 600), ttl=2, maxfan=2, hprog=20, hcb=5, hbc=0,
-                 p_bcast=10, p_mcast=5, p_progress=8, p_mask=5, p_cb=5, p_wait=0, tail=True, uneven=True, fstate=0, subcomm=0, other=0):
+                 p_bcast=10, p_mcast=5, p_progress=8, p_mask=5, p_cb=5, p_wait=0, tail=True, uneven=True, fstate=0, subcomm=0, other=0, p_stats=0):
     params = {"maxfan": maxfan, "hprog": hprog, "hcb": hcb, "hbc": hbc}
     if fstate:
         params["fstate"] = 1      # every message uses a function object with 8 bytes of state
@@ -93,6 +93,8 @@ def gen_scenario(rng, n, epochs=2, ops_per_rank=6, sizes=(0, 8, 100, 600), ttl=2
                     else:
                         ops.append((e, r, "async", fresh(), rng.below(n), rng.choice(sizes), rng.below(ttl + 1)))
                     continue
+                if p_stats and rng.chance(p_stats):
+                    ops.append((e, r, "statsreset"))     # comm::stats_reset() on this rank only, between two sends
                 x = rng.below(100)
                 if x < p_bcast:
                     ops.append((e, r, "bcast", fresh(), rng.choice(sizes), 0))
@@ -180,10 +182,11 @@ def expected(sc):
 
 class Config:
     def __init__(self, nodes, ppn, routing="NONE", buf_kb=None, buf_bytes=None, irecvs=8, isends_wait=4, issend=8,
-                 policy="uniform", eager=50, sim_seed=1, deviate=None, hold=None):
+                 policy="uniform", eager=50, sim_seed=1, deviate=None, hold=None, placement=None):
         self.nodes, self.ppn, self.routing = nodes, ppn, routing
         self.buf_kb, self.irecvs, self.isends_wait, self.issend = buf_kb, irecvs, isends_wait, issend
         self.policy, self.eager, self.sim_seed = policy, eager, sim_seed
+        self.placement = placement        # "cyclic": world rank r lives on node r % nodes (round-robin) instead of block placement
         self.hold = hold                  # (dst, steps): deliveries to dst are delayed by that many scheduling steps
         self.deviate = deviate or {}      # systematic exploration: {decision index: offset from the seeded choice}
 
@@ -203,6 +206,10 @@ class Config:
             e["YGM_COMM_BUFFER_SIZE_KB"] = self.buf_kb
         if getattr(self, "deviate", None):
             e["SIMMPI_DEVIATE"] = ",".join(f"{j}:{a}" for j, a in sorted((int(k), int(v)) for k, v in self.deviate.items()))
+        if getattr(self, "placement", None):
+            e["SIMMPI_PLACEMENT"] = self.placement
+        if getattr(self, "default_irecv_size", None):
+            e["YGM_COMM_IRECV_SIZE_KB"] = None      # unset: the library's own default receive-slot size (1 GiB)
         if getattr(self, "hold", None):
             e["SIMMPI_HOLD"] = f"{int(self.hold[0])}:{int(self.hold[1])}"
         return e
@@ -334,6 +341,9 @@ def verdict_signature(sr):
     if sr.verdict.startswith("rank-failed"):
         m = re.search(r"what\(\):\s*(.*)", sr.stderr)
         msg = m.group(1).strip() if m else ""
+        u = re.search(r"SIMMPI-USAGE-ERROR: (.*)", sr.stderr)
+        if u:
+            msg = "MPI usage error: " + u.group(1).strip()
         msg = re.sub(r"/[^ ]*/include/", "include/", msg)
         return "abort " + sr.verdict.split(":", 1)[1].strip().split(" ", 1)[-1] + " " + msg[:160]
     if sr.verdict in ("deadlock", "deadlock-spin", "livelock"):
